@@ -411,7 +411,7 @@ TABLE['C16'] = dict(
     ])
 
 TABLE['C17'] = dict(
-    imports=[A + 'CacheThm', A + 'Glue', A + 'MomentsThm', A + 'MemoThm'],
+    imports=[A + 'CacheThm', A + 'Glue', A + 'MomentsThm', A + 'MemoThm', A + 'ShareThm'],
     summary='Proved on the state-machine model of StateSpace caching (epoch, S, per-epoch cache, drop_S, drop_cache, first access of '
             'states): for EVERY history of operations every read of S returns the matrix of the epoch in force, with caching on or off; '
             'the number of recomputations is bounded; the repaired consumer (update_epoch before reading) is correct and the pre-fix '
@@ -435,10 +435,15 @@ TABLE['C17'] = dict(
         ('memo_corr_in_place_defect', 'PG.Memo.corr_inPlace_poisons_cov', 'kernel-checked: corr computed in place on the cached cov array makes a later cov read return correlations'),
         ('memo_getP_theta_defect', 'PG.Memo.getP_forgets_theta', 'kernel-checked: a _get_P memo keyed without theta'),
         ('memo_in_place_sum_defect', 'PG.Memo.inPlaceSum_poisons_memo', 'kernel-checked: in-place += on an array returned from a memoised call'),
+        ('share_refinement', 'PG.Share.share_refinement', 'STATE-SPACE SHARING in Inference.get_coal: every interleaving of get_coal / update_epoch / S reads through any handed-out Coalescent answers like unshared, own-configuration state spaces'),
+        ('share_read_own', 'PG.Share.share_read_own', 'a read after update_epoch through a handle returns the rate matrix of THAT configuration in THAT epoch'),
+        ('share_cache_flag', 'PG.Share.share_cache_flag_irrelevant', 'cache=True and cache=False give the same answers (consumer protocol: update the epoch before reading)'),
+        ('share_eq_deme_order', 'PG.Share.eqKey_current_ignores_deme_order', 'documented: StateSpace.__eq__ (dict equality of lineage configs) ignores the ORDER of the demes; harmless because every consumer reads the axis from the shared state space (Compat discharged by compat_of_order_invariant)'),
+        ('share_forgets_locus_defect', 'PG.Share.forgetsLocus_stale', 'kernel-checked: a key that forgets the locus configuration hands a coalescent the matrix of another recombination rate'),
     ])
 
 TABLE['C18'] = dict(
-    imports=[A + 'SerializeThm'],
+    imports=[A + 'SerializeThm', A + 'SerializeFields'],
     summary='Proved on the bookkeeping model with the codec as a parameter (decode (encode x) = some x): the loaded object answers every '
             'statistic like the original whether or not it was computed before saving, saving leaves the original untouched, cycles are '
             'idempotent. Partial by construction: jsonpickle/dill losslessness is the hypothesis the correspondence exercises.',
@@ -447,10 +452,17 @@ TABLE['C18'] = dict(
         ('original_untouched', 'PG.Serialize.C18_original_untouched', 'to_json returns the original unchanged'),
         ('idempotent', 'PG.Serialize.C18_idempotent', 'a second cycle is the identity'),
         ('later_queries', 'PG.Serialize.compute_inv', 'statistics computed after loading keep agreeing'),
+        ('fields_roundtrip_coalescent', 'PG.Serialize.roundtrip_dict_coalescent', 'FIELD LEVEL: after Coalescent.to_json / from_json every attribute of __dict__ (start_time, end_time, regularize, model, demography, results, ...) is the one that was saved, in the same order; only the two state-space entries may differ, and only by their dropped caches'),
+        ('fields_named', 'PG.Serialize.roundtrip_coalescent_fields', 'restated for the named configuration fields'),
+        ('fields_roundtrip_inference', 'PG.Serialize.roundtrip_dict_inference', 'Inference: every key comes back with its value (callables through dill), no key is added'),
+        ('x0_stable', 'PG.Serialize.roundtrip_x0_stable', 'the start point after loading equals the one before, for every rng draw function'),
+        ('fields_original_untouched', 'PG.Serialize.original_untouched_coalescent', 'saving leaves the original dict untouched'),
+        ('setstate_defaults_defect', 'PG.Serialize.defaultsOverride_loses_start_time', 'kernel-checked: `state | defaults` in __setstate__ resets start_time / regularize'),
+        ('getstate_x0_defect', 'PG.Serialize.dropsCachedX0_redraws', 'kernel-checked: dropping the cached x0 in __getstate__ makes the loaded object draw another start point'),
     ])
 
 TABLE['C19'] = dict(
-    imports=[A + 'InferenceThm', A + 'InferenceLabels', A + 'CacheThm'],
+    imports=[A + 'InferenceThm', A + 'InferenceLabels', A + 'CacheThm', A + 'ShareThm'],
     summary='Proved with the optimiser as a parameter: _run stores the first minimum of the results, loss_inferred = min(loss_runs), the stored '
             'point attains it; add_run keeps the lower loss, concatenates losses, any merge order gives the global minimum; bootstraps append one '
             'row; create_run uses the given start values and rejects out-of-bounds ones (pre-fix variant refuted). Cache transparency is C17. '
@@ -473,6 +485,7 @@ TABLE['C19'] = dict(
         ('labels_nonvacuous', 'PG.Inference.ex_theorem_applies', 'the hypotheses of labels_within_bounds are met by a concrete instance'),
         ('labels_driver', 'PG.InfLab.runLabelled_eq_labelResults', 'the driver command inferlab computes the labelling part of the proved function'),
         ('cache_transparent', 'PG.Cache.C17_refinement', 'shared state spaces do not change answers'),
+        ('cache_flag_irrelevant', 'PG.Share.share_cache_flag_irrelevant', 'state-space caching on or off: same rate matrices for every parameter set'),
     ])
 
 TABLE['C20'] = dict(
